@@ -26,7 +26,7 @@ LEVEL_TEXT = ("Thousands of hostile texts per run through the whole pipeline and
               "KNOWN-FINDING.")
 LEVEL_NOTE = "The list of builtins is read from the engine at run time, so new builtins are fuzzed automatically."
 TECHNIQUE = "runtime fuzzing monitor (token mutation + builtin call-shape fuzzing) with exception-class oracle"
-BUDGET = {"quick": 700, "thorough": 20000}
+BUDGET = {"quick": 700, "thorough": 10000}
 TIME_BUDGET = {"quick": 220, "thorough": 3300}
 CASE_TIMEOUT = 60
 WATCHDOG_FRACTION = 0.05
